@@ -204,19 +204,20 @@ def _run_one(args):
     return rc, out
 
 
-def run_case_files(pid, tag, header, case_terms, evaluator, chunk=300, timeout=600, keep=False):
+def run_case_codes(pid, tag, header, case_terms, evaluator, chunk=300, timeout=900, keep=False, ctype=None):
     """case_terms: list of Coq terms (strings) of one type; evaluator: Coq function
-    name of type  case -> bool  (true = model agrees / property holds).
-    Returns list of bool per case (None if the file failed)."""
+    name of type  case -> nat.  Returns the list of codes (None if the file failed)."""
     os.makedirs(GEN, exist_ok=True)
+    if not case_terms:
+        return []
     jobs = []
     chunks = [case_terms[i:i + chunk] for i in range(0, len(case_terms), chunk)]
     for ci, ch in enumerate(chunks):
         body = [header, ""]
-        body.append("Definition cases := [")
+        body.append(f"Definition cases : list {ctype} := [" if ctype else "Definition cases := [")
         body.append(";\n".join("  " + c for c in ch))
         body.append("].")
-        body.append(f"Definition results := List.map (fun c => if {evaluator} c then 1%nat else 0%nat) cases.")
+        body.append(f"Definition results : list nat := List.map {evaluator} cases.")
         body.append("Eval vm_compute in results.")
         jobs.append((f"cases_{pid}_{tag}_{ci}", "\n".join(body) + "\n", timeout))
     results = []
@@ -225,18 +226,19 @@ def run_case_files(pid, tag, header, case_terms, evaluator, chunk=300, timeout=6
     for (rc, out), ch, job in zip(outs, chunks, jobs):
         if rc != 0:
             sys.stderr.write(f"[cases] {job[0]} failed rc={rc}:\n{out[-1500:]}\n")
+            print(f"# case file {job[0]} failed (rc={rc}): {out[-400:]}")
             results.extend([None] * len(ch))
+            keep = True
             continue
         m = re.search(r"=\s*\[(.*?)\]\s*:\s*list nat", out, flags=re.S)
         if not m:
             results.extend([None] * len(ch))
             continue
-        vals = [v.strip() for v in m.group(1).split(";") if v.strip()]
-        vals = [v.replace("%nat", "") for v in vals]
+        vals = [v.strip().replace("%nat", "") for v in m.group(1).split(";") if v.strip()]
         if len(vals) != len(ch):
             results.extend([None] * len(ch))
             continue
-        results.extend([v == "1" for v in vals])
+        results.extend([int(v) for v in vals])
     if not keep:
         for job in jobs:
             try:
@@ -244,6 +246,13 @@ def run_case_files(pid, tag, header, case_terms, evaluator, chunk=300, timeout=6
             except FileNotFoundError:
                 pass
     return results
+
+
+def run_case_files(pid, tag, header, case_terms, evaluator, chunk=300, timeout=900, keep=False):
+    """evaluator : case -> bool.  Returns list of True/False (None if the file failed)."""
+    codes = run_case_codes(pid, tag, header, case_terms, f"(fun c => if {evaluator} c then 1%nat else 0%nat)",
+                           chunk=chunk, timeout=timeout, keep=keep)
+    return [None if v is None else (v == 1) for v in codes]
 
 
 def eval_terms(pid, tag, header, exprs, timeout=600):
